@@ -218,8 +218,10 @@ func (b *c08Builder) usages() {
 		if i > 1 {
 			del = 45
 		}
+		// one Usage in seven names its using resource by a resourceSelector that was never
+		// resolved (deleted before its first successful reconcile)
 		b.add(c08Obj{Kind: "usage", Name: fmt.Sprintf("u%d", i), Fins: b.fins(usagectrl.VerifC08Finalizer, 90, 10), Del: r.Chance(del, 100),
-			Flag: r.Chance(75, 100), Ref: by, RefKind: byKind, Of: of, OfKind: ofKind})
+			Flag: r.Chance(75, 100), Ref: by, RefKind: byKind, Of: of, OfKind: ofKind, Sel: by != "" && r.Chance(15, 100)})
 		if by != "" {
 			using = append(using, rk{c08ResKind(byKind), by})
 		}
@@ -407,7 +409,9 @@ func c08RandomSchedule(r *Rng, n int, liveClaims, atomicLive bool) func(w *c08Wo
 				case "xrd":
 					lives = append(lives, c08Live{"defined", v.Name}, c08Live{"offered", v.Name})
 				case "usage":
-					lives = append(lives, c08Live{"usage", v.Name})
+					if !v.Sel {
+						lives = append(lives, c08Live{"usage", v.Name})
+					}
 				case "rev":
 					if !v.SkipDeps {
 						lives = append(lives, c08Live{"rev", v.Name})
